@@ -718,3 +718,86 @@ func firstSource(v ssa.Value) ssa.Value {
 	}
 	return v
 }
+
+// c08recheck: the 'deleted' mark of a nodeInfo is looked at again once its lock is held.
+func c08recheck(c *Ctx) {
+	r := c.R
+	r.Decides("every nodeInfo entry point that takes the node's lock itself reads the 'deleted' mark again behind the Lock() before it touches the node's state (check - lock - re-check: between the first look and the lock another goroutine can have emptied and dropped the nodeInfo; a write into the orphan is reported as success and lost)")
+	r.Rule("ATOMIC(re-check under the lock): in nodeInfo.AddOrUpdatePod / DeletePod / AddOrUpdateNodeMetric / DeleteNodeMetric, from behind every Lock() of the node no store, map update, delete or in-package call is reachable without a load of n.deleted first")
+	n := 0
+	for _, name := range []string{"AddOrUpdatePod", "DeletePod", "AddOrUpdateNodeMetric", "DeleteNodeMetric"} {
+		fn := c.Fn(loadawarePkg, "nodeInfo", name)
+		if fn == nil {
+			continue
+		}
+		recv := fn.Params[0]
+		for _, cl := range an.Calls(fn, false) {
+			call, ok := cl.(*ssa.Call)
+			if !ok || an.ShortCallee(&call.Call) != "Lock" {
+				continue
+			}
+			// the node's own lock
+			own := false
+			for x := range backwardAll(call.Call.Args[0]) {
+				if x == ssa.Value(recv) {
+					own = true
+				}
+			}
+			if !own {
+				continue
+			}
+			n++
+			touched := ""
+			an.Explore(fn, an.After(call), nil, func(in ssa.Instruction) bool {
+				switch x := in.(type) {
+				case *ssa.UnOp:
+					if x.Op == token.MUL {
+						if _, f, _, ok := an.FieldOf(x.X); ok && f == "deleted" {
+							return true // re-checked: stop this path
+						}
+					}
+				case *ssa.Store:
+					if _, _, _, ok := an.FieldOf(x.Addr); ok && touched == "" {
+						touched = c.InstrPos(x)
+					}
+				case *ssa.MapUpdate:
+					if touched == "" {
+						touched = c.InstrPos(x)
+					}
+				case *ssa.Call:
+					if cal := x.Call.StaticCallee(); cal != nil && cal.Pkg == fn.Pkg && len(cal.Blocks) > 0 && touched == "" {
+						touched = c.InstrPos(x)
+					}
+					if an.IsBuiltinCall(x, "delete") && touched == "" {
+						touched = c.InstrPos(x)
+					}
+				}
+				return false
+			})
+			r.Check(touched == "", "ATOMIC", fkey(fn)+"/deleted-rechecked-under-lock", c.InstrPos(call), "deleted is read again behind the Lock()", "the node's state is touched at "+touched+" behind Lock() without looking at n.deleted again: a pod (or metric) written into a nodeInfo that another goroutine has just dropped from the cache is reported as stored and is lost")
+		}
+	}
+	r.Floor("ATOMIC", "Lock() sites in the nodeInfo entry points", n, 4)
+}
+
+// c08estimateNode: the node estimate cannot fail (its callers let a node pass on an error).
+func c08estimateNode(c *Ctx) {
+	r := c.R
+	r.Decides("the default estimator's EstimateNode never reports an error - a malformed raw-allocatable annotation falls back to the node's allocatable - because Plugin.Filter and Score answer an estimation error with 'no opinion' (the node passes unevaluated)")
+	r.Rule("ERR(no failure to skip on): every return of DefaultEstimator.EstimateNode carries a nil error and a list that derives from node.Status.Allocatable or from the parsed raw allocatable; Plugin.Filter returns nil after an EstimateNode error (the pairing that makes the first part necessary)")
+	fn := c.Fn(loadawarePkg+"/estimator", "DefaultEstimator", "EstimateNode")
+	if fn == nil {
+		return
+	}
+	ok, n := true, 0
+	for _, alt := range an.ReturnAlts(fn) {
+		n++
+		if !an.IsNilConst(alt.Results[1]) {
+			ok = false
+		}
+		if an.IsNilConst(alt.Results[0]) {
+			ok = false
+		}
+	}
+	r.Check(ok && n >= 2, "ERR", fkey(fn)+"/never-fails", c.Pos(fn.Pos()), "every return has a list and a nil error", "EstimateNode can return an error (or no list): Plugin.Filter lets a node pass unevaluated on an estimation error, so a node with a malformed raw-allocatable annotation is never load-checked")
+}
